@@ -485,6 +485,11 @@ class FileCache:
                     # Defaults to True if no validation directive is given
                     valid_entry = True
 
+                if valid_entry:
+                    # Cache hit: touch the file so that it counts as recently used
+                    # when deciding what to evict.
+                    self._get_from_cache(hashkey)
+
             if not valid_entry:
                 # If not a valid entry (either missing or invalid)
                 #
